@@ -8,9 +8,11 @@
 //   CA A ("right" CA)            CA B ("wrong" CA)
 //    |- srv_valid      CN/SAN localhost + 127.0.0.1 + ::1, valid now
 //    |- srv_expired    same names, notAfter in the past
+//    |- srv_notyet / srv_notyet_far   same names, notBefore one day / ten years in the future
 //    |- srv_wrongname  SAN other.example / 192.0.2.1, valid now
 //    |- cli_valid      client certificate, valid now
 //    |- cli_expired    client certificate, notAfter in the past
+//    |- cli_notyet / cli_notyet_far   client certificate, notBefore one day / ten years in the future
 //   srv_selfsigned     self-signed leaf, same names as srv_valid
 //   srv_mismatch       certificate of srv_valid + a private key that does NOT
 //                      belong to it (two forms: a plain foreign key for iora's
@@ -58,10 +60,10 @@ public:
 
   std::string dir;
   Identity caA, caB;
-  Identity srvValid, srvSelfSigned, srvExpired, srvWrongName;
+  Identity srvValid, srvSelfSigned, srvExpired, srvWrongName, srvNotYet, srvNotYetFar;
   Identity srvMismatchFiles; // certFile = srv_valid certificate, keyFile = unrelated key
   EVP_PKEY *srvForgedKey = nullptr; // public = srvValid's, private = unrelated scalar
-  Identity cliValid, cliUntrusted, cliExpired, cliSelfSigned;
+  Identity cliValid, cliUntrusted, cliExpired, cliSelfSigned, cliNotYet, cliNotYetFar;
   std::string emptyDir;  // directory with no certificates (SSL_CERT_DIR for "no system roots")
   std::string emptyFile; // empty file (SSL_CERT_FILE for "no system roots")
 
@@ -216,6 +218,14 @@ private:
     exp.notBeforeOffset = -10L * 86400;
     exp.notAfterOffset = -1L * 86400;
     srvExpired = make("srv_expired", exp, &caA);
+    Spec ny = srv; // not yet valid: beyond any plausible clock-skew tolerance
+    ny.notBeforeOffset = 1L * 86400;
+    ny.notAfterOffset = 366L * 86400;
+    srvNotYet = make("srv_notyet", ny, &caA);
+    Spec nyf = srv;
+    nyf.notBeforeOffset = 3650L * 86400;
+    nyf.notAfterOffset = 4015L * 86400;
+    srvNotYetFar = make("srv_notyet_far", nyf, &caA);
     Spec wn = srv;
     wn.cn = "other.example";
     wn.san = "DNS:other.example,IP:192.0.2.1";
@@ -239,6 +249,14 @@ private:
     cexp.notBeforeOffset = -10L * 86400;
     cexp.notAfterOffset = -1L * 86400;
     cliExpired = make("cli_expired", cexp, &caA);
+    Spec cny = cli;
+    cny.notBeforeOffset = 1L * 86400;
+    cny.notAfterOffset = 366L * 86400;
+    cliNotYet = make("cli_notyet", cny, &caA);
+    Spec cnyf = cli;
+    cnyf.notBeforeOffset = 3650L * 86400;
+    cnyf.notAfterOffset = 4015L * 86400;
+    cliNotYetFar = make("cli_notyet_far", cnyf, &caA);
 
     std::atexit([] { Pki::get().cleanup(); });
   }
